@@ -89,6 +89,18 @@ TRelease ==
   /\ ObsOK(Ev.obs, TRUE, "ledger = sum of the live pods")
   /\ UNCHANGED cfg
 
+\* C19 (CPU / NUMA part): the scheduler restarts. Every live allocation was persisted on its pod at bind time; the fresh
+\* cache is rebuilt from those objects only (any informer order, duplicate adds, same-allocation updates) and must hold
+\* exactly the allocations the old scheduler held - an allocation that holds nothing is not restored (and need not be).
+HoldsNothing(p) == podCpus[p] = {} /\ \A n \in DOMAIN podNuma[p] : podNuma[p][n].cpu = 0 /\ podNuma[p][n].mem = 0
+TRestart ==
+  /\ IsEvent("restart")
+  /\ LET keep == {p \in DOMAIN podCpus : ~(podCpus[p] = {} /\ DOMAIN podNuma[p] = {})} IN
+        /\ podCpus' = [p \in keep |-> podCpus[p]]
+        /\ podNuma' = [p \in keep |-> podNuma[p]]
+  /\ ObsOK(Ev.obs, TRUE, "fresh cache rebuilt from the persisted objects = the live scheduler's state")
+  /\ UNCHANGED cfg
+
 TTake ==
   /\ IsEvent("take")
   /\ Expect(TakeOK(ToSet(Ev.avail), Ev.n, Ev.result.ok, ToSet(Ev.result.cpus)),
@@ -113,6 +125,6 @@ TPolicy ==
   /\ UNCHANGED vars
 
 TraceInit == \E i \in Starts : TraceStart(i) /\ InitWith(Trace[i])
-TraceNext == TAlloc \/ TUpdate \/ TRelease \/ TTake \/ TDist \/ TPolicy \/ (SegDone /\ UNCHANGED vars)
+TraceNext == TAlloc \/ TUpdate \/ TRelease \/ TRestart \/ TTake \/ TDist \/ TPolicy \/ (SegDone /\ UNCHANGED vars)
 TraceSpec == TraceInit /\ [][TraceNext]_<<vars, tvars>>
 =============================================================================
